@@ -131,6 +131,20 @@ def check_case(case):
                     break
             anymatch = anymatch or len(xi) > 0
             anyunmatched = anyunmatched or len(xi) < len(X)
+    # state between calls: reuse the very same y buffer with new contents - the answer must be that of a fresh array
+    if len(Y) >= 2 and not viols:
+        ybuf = y.copy()
+        try:
+            kdt_match(x.copy(), ybuf, K=2)
+            ybuf[...] = ybuf[::-1].copy()               # refill in place (same address, shape, dtype)
+            got = kdt_match(x.copy(), ybuf, K=2)
+            want = kdt_match(x.copy(), ybuf.copy(), K=2)
+            trans += 3
+            if not (np.array_equal(got[0], want[0]) and np.array_equal(got[1], want[1])):
+                viols.append(('stale-state', '%s: y refilled in place -> %s / %s, fresh copy of the same values -> %s / %s' % (
+                    d, np.asarray(got[0]).tolist()[:10], np.asarray(got[1]).tolist()[:10], np.asarray(want[0]).tolist()[:10], np.asarray(want[1]).tolist()[:10])))
+        except Exception as e:
+            viols.append(('raise:%s:reuse' % type(e).__name__, '%s second call raised %r' % (d, e)))
     return Outcome(cls=case[0], transitions=trans, viols=viols, nontrivial=anymatch and anyunmatched)
 
 
